@@ -1,18 +1,9 @@
 (* C03 — MergeDuties yields well-formed per-slot duties: parallel arrays of equal length, one
    duty per slot in ascending slot order, exactly the reported (validator, committee, position)
    entries, and a committee size for every committee named. *)
-From Verif Require Import Lib.Base Model.C03_ChainTime Model.C03_Controller Proofs.C03_Table.
+From Verif Require Import Lib.Base Model.C03_ChainTime Model.C03_Controller Model.C03_Spec Proofs.C03_Table.
 From Coq Require Import ZifyBool ZifyN ZifyNat Permutation Sorted.
 Open Scope N_scope.
-
-Definition tuples (m : mduty) : list (N * N * N) := combine (combine (md_vals m) (md_comms m)) (md_vcis m).
-Definition flat (acc : list mduty) : list (N * (N * N * N)) :=
-  flat_map (fun m => map (fun t => (md_slot m, t)) (tuples m)) acc.
-Definition entry (d : fduty) : N * (N * N * N) := (fd_slot d, (fd_val d, fd_comm d, fd_vci d)).
-
-Definition wf_m (m : mduty) : Prop :=
-  length (md_vals m) = length (md_comms m) /\ length (md_vals m) = length (md_vcis m) /\
-  md_vals m <> [] /\ map fst (md_clens m) = md_comms m.
 
 Lemma combine_snoc {A B} : forall (l1 : list A) (l2 : list B) a b,
   length l1 = length l2 -> combine (l1 ++ [a]) (l2 ++ [b]) = combine l1 l2 ++ [(a, b)].
